@@ -44,6 +44,49 @@ def stir(ctx, rounds=1):
                 n += 4
         except Exception:
             pass
+        # valid but non-canonical spellings of every name (mixed or very many accidentals): whatever a library call
+        # remembers about them must not leak into what it later answers for the canonical spelling
+        try:
+            from mingus.core import notes as _notes, intervals, chords
+            th = __import__("rv.models.theory", fromlist=["pure_names"])
+            pure = list(th.pure_names(2))
+            shs = th.all_shorthands(2)
+            ctors = [getattr(intervals, c) for c in ("minor_unison", "major_unison", "augmented_unison", "minor_second", "major_second",
+                                                     "minor_third", "major_third", "minor_fourth", "major_fourth", "perfect_fourth",
+                                                     "minor_fifth", "major_fifth", "perfect_fifth", "minor_sixth", "major_sixth",
+                                                     "minor_seventh", "major_seventh") if hasattr(intervals, c)]
+            for nm in pure:
+                for odd in (nm[0] + "#b" + nm[1:], nm + "b#", nm[0] + "#" * 7 + "b" * 7 + nm[1:], nm + "#" * 12):
+                    for f in (_notes.note_to_int, _notes.reduce_accidentals, _notes.remove_redundant_accidentals, _notes.augment,
+                              _notes.diminish) + tuple(ctors):
+                        try:
+                            f(odd)
+                        except Exception:
+                            pass
+                        n += 1
+                    other = rng.choice(pure)
+                    for f in (intervals.measure, intervals.determine, _notes.is_enharmonic, intervals.is_consonant):
+                        try:
+                            f(odd, other)
+                            f(other, odd)
+                        except Exception:
+                            pass
+                        n += 2
+                    for sh in rng.sample(shs, 12):
+                        for up in (True, False):
+                            try:
+                                intervals.from_shorthand(odd, sh, up)
+                            except Exception:
+                                pass
+                            n += 1
+                    for suf in ("", "m7", "7b5", "M9"):
+                        try:
+                            chords.from_shorthand(odd + suf)
+                        except Exception:
+                            pass
+                        n += 1
+        except Exception:
+            pass
         gc.collect()
     ctx.count("after-history: read-only calls stirred into the interpreter before the second pass", n)
     return n
